@@ -22,6 +22,7 @@ def main (args : List String) : IO UInt32 := do
   let stdout ← IO.getStdout
   match args with
   | ["control"] => loop stdin stdout State.init Driver.Control.stepLine State.init; return 0
+  | ["snapshot"] => loop stdin stdout State.init Driver.Control.stepLine State.init; return 0
   | ["rollout"] => loop stdin stdout () Driver.Rollout.stepLine (); return 0
   | ["buffer"] => loop stdin stdout () Driver.Buffer.stepLine (); return 0
   | _ => IO.eprintln "usage: kpmodel <engine>"; return 2
